@@ -54,6 +54,8 @@ def run_valuation(prog, circ, valuation, inputs_map, contents=None):
     """Reset, apply inputs, settle. Returns ticks or None."""
     circ.reset()
     missing = obs.apply_inputs(circ, prog, valuation, inputs_map)
+    used = lang.referenced_names(prog)
+    missing = [m for m in missing if m in used]
     return circ.settle(), missing
 
 
